@@ -257,7 +257,7 @@ def main(argv=None):
         else:
             new_viol.append(v)
     for key, (k, v) in seen_known.items():
-        print("KNOWN-FINDING: property=%s %s [%s]" % (pid, k.get("what", v["what"]), key))
+        print("KNOWN-FINDING: property=%s %s [%s]" % (pid, k.get("what", v["what"])[:150], key))
     reported = set()
     for v in new_viol:
         if v["key"] in reported:
